@@ -254,6 +254,13 @@ impl G {
             if self.rng.gen_bool(0.4) {
               t.oe = Some(self.rng.gen_range(0..8));
             }
+            // values at the top of the u64 range (written as HUGE, sent as u64::MAX): a relative
+            // bound that overflows saturates, so such a start never opens and such an end never closes
+            for f in [&mut t.hs, &mut t.he, &mut t.os, &mut t.oe] {
+              if f.is_some() && self.rng.gen_bool(0.15) {
+                *f = Some(crate::scenario::HUGE);
+              }
+            }
             e.terms = Some(t);
           }
           stone.etching = Some(e);
@@ -515,7 +522,7 @@ impl G {
   /// an etching with a valid commitment when a mature taproot output exists
   fn gen_etch_tx(&mut self) -> Option<TxSpec> {
     let h = self.height + 1;
-    let pos = self.utxos.iter().position(|u| u.t == "tr" && h >= u.h + 6 && u.v > 0 && !self.runic.contains(&u.label))?;
+    let pos = self.utxos.iter().position(|u| u.t == "tr" && h >= u.h + 5 && u.v > 0 && !self.runic.contains(&u.label))?;
     let input = self.utxos.remove(pos);
     let label = format!("{}t{}", self.tag, self.next_tx);
     self.next_tx += 1;
@@ -535,10 +542,27 @@ impl G {
       terms = Some(TermsSpec {
         cap: Some(self.rng.gen_range(1..6)),
         amount: Some(self.rng.gen_range(1..12)),
-        hs: None,
-        he: if self.rng.gen_bool(0.3) { Some(h as u64 + self.rng.gen_range(2..10)) } else { None },
-        os: if self.rng.gen_bool(0.3) { Some(self.rng.gen_range(0..3)) } else { None },
-        oe: None,
+        hs: match self.rng.gen_range(0..12) {
+          0..=2 => Some(h as u64 + self.rng.gen_range(0..5)),
+          3 => Some(HUGE),
+          _ => None,
+        },
+        he: match self.rng.gen_range(0..12) {
+          0..=3 => Some(h as u64 + self.rng.gen_range(2..10)),
+          4 => Some(HUGE),
+          _ => None,
+        },
+        // HUGE stands for u64::MAX: block + offset saturates, so such a start never opens
+        os: match self.rng.gen_range(0..12) {
+          0..=3 => Some(self.rng.gen_range(0..3)),
+          4 => Some(HUGE),
+          _ => None,
+        },
+        oe: match self.rng.gen_range(0..12) {
+          0..=2 => Some(self.rng.gen_range(1..8)),
+          3 => Some(HUGE),
+          _ => None,
+        },
       });
     }
     let stone = StoneSpec {
@@ -556,12 +580,31 @@ impl G {
     };
     self.names.push(name.clone());
     self.runes.push((label.clone(), has_terms));
+    // sometimes a second committing input that is still immature, before or after the mature one
+    // (some input with a mature commitment is enough, wherever it stands)
+    let mut ins = vec![input.label.clone()];
+    let mut commits = vec![CommitSpec { input: 0, name: name.clone() }];
+    if self.rng.gen_bool(0.35) {
+      if let Some(p2) = self.utxos.iter().position(|u| u.t == "tr" && h < u.h + 5 && u.v > 0 && !self.runic.contains(&u.label)) {
+        let young = self.utxos.remove(p2);
+        if let Some(o) = outs.get_mut(1) {
+          o.v += young.v;
+        }
+        if self.rng.gen_bool(0.6) {
+          ins.insert(0, young.label.clone());
+          commits = vec![CommitSpec { input: 0, name: name.clone() }, CommitSpec { input: 1, name: name.clone() }];
+        } else {
+          ins.push(young.label.clone());
+          commits.push(CommitSpec { input: 1, name: name.clone() });
+        }
+      }
+    }
     let tx = TxSpec {
       label: label.clone(),
-      ins: vec![input.label.clone()],
+      ins,
       outs,
       stone: Some(stone),
-      commits: vec![CommitSpec { input: 0, name }],
+      commits,
       ..Default::default()
     };
     for (i, o) in tx.outs.iter().enumerate() {
